@@ -117,8 +117,7 @@ class Node:
 
     def array(self) -> np.ndarray:
         """Numeric payload as ndarray in row-major order (reversed file shape)."""
-        if self.tag not in _NUMERIC.values() and self.tag not in (
-                'f64', 'f32', 'i8', 'u8', 'i32', 'u32', 'i64', 'u64'):
+        if self.tag not in ('f64', 'f32', 'i8', 'u8', 'i32', 'u32', 'i64', 'u64'):
             raise DecodeError(f'expected a numeric array, found {self.tag}', self.offset)
         return np.asarray(self.value).reshape(tuple(reversed(self.shape)))
 
